@@ -22,6 +22,7 @@ class Ctx:
         self.dep, self.conf, self.w, self.log, self.seed = dep, conf, world, log, seed
         self.tmb, self.umb = tmb, umb
         self.held = []
+        self.crowds = set()
         self.fid = 100
         self.rnd = random.Random(seed)
         self.last_up = None        # last client->server datagram seen by the UDP middlebox (Shadowsocks)
@@ -36,6 +37,7 @@ class Ctx:
         for c in self.held:
             c.close()
         self.held = []
+        self.crowds = set()
 
 
 async def _raw(port, timeout=3.0):
@@ -57,6 +59,31 @@ async def tcp_silent_server(ctx):
 
 async def tcp_silent_client(ctx):
     ctx.held.append(await _raw(ctx.dep.client_port))
+
+
+async def _crowd(ctx, port, tag, n=100):
+    """A hundred peers that connect and then say nothing, or half of a TLS record, and stay connected while the
+    service is used (once per run: a second crowd would exhaust the descriptors for good, which is not a per-flow fault)."""
+    if tag in ctx.crowds:
+        return
+    ctx.crowds.add(tag)
+    for i in range(n):
+        try:
+            c = await _raw(port, timeout=2.0)
+        except (OSError, asyncio.TimeoutError):
+            break
+        ctx.held.append(c)
+        if i % 2:
+            await c.sendall(b"\x16\x03\x01\x02\x00\x01\x00\x01\xfc\x03\x03" + ctx.rnd.randbytes(40))
+    await asyncio.sleep(0.3)
+
+
+async def silent_crowd_server(ctx):
+    await _crowd(ctx, ctx.dep.server_port, "s")
+
+
+async def silent_crowd_client(ctx):
+    await _crowd(ctx, ctx.dep.client_port, "c")
 
 
 async def tls_garbage(ctx):
@@ -205,6 +232,7 @@ async def fd_exhaust_client(ctx):
 
 
 INJECT = {
+    "SilentCrowdServer": silent_crowd_server, "SilentCrowdClient": silent_crowd_client,
     "TcpSilentServer": tcp_silent_server, "TcpSilentClient": tcp_silent_client, "TlsGarbage": tls_garbage, "WsGarbage": ws_garbage,
     "ResetAtServer": reset_at_server, "HalfLocalHandshake": half_local_handshake, "UnresolvableTcp": unresolvable_tcp,
     "RefusedTcp": refused_tcp, "TargetResets": target_resets, "AppResets": app_resets, "GarbageDatagram": garbage_datagram,
